@@ -727,6 +727,18 @@ def validated_item_records():
     return [single("evens", "mut"), composite("CompEvens", [("int", "lit"), ("evens", "mut")])]
 
 
+def dnc_class_records():
+    """classes declared do_not_copy=True are edited live by EVERY helper (they are never copied): a failing multi-step call
+    without _inplace is then just as much a partial-commit hazard as one with it"""
+    return [composite("CompDncClass", [("int", "lit"), ("str", "lit")], do_not_copy=True),
+            composite("CompDncClassInv", [("int", "lit"), ("nums", "attr_factory")], do_not_copy=True, invalidated_by={"nums": ["v"]})]
+
+
+def empty_state_records():
+    """instances that store NOTHING after construction (no attribute has a default): the emptiest receiver there is"""
+    return [composite("CompEmpty", [("int", "none"), ("str", "none")]), composite("CompEmptyColl", [("nums", "none"), ("int", "none"), ("leaf", "none")])]
+
+
 def property_served_records():
     return [
         {"name": "PropNums", "attrs": [{"kind": "nums", "default": "none", "prop": "cached"}, {"kind": "int", "default": "lit"}], "opts": {}},
